@@ -27,6 +27,11 @@ class PyStr(str):
     pass
 
 
+class Uninit:
+    """result of cls.__new__(cls): becomes the object built by the following __init__ call"""
+    def __init__(self, cname): self.cname, self.obj = cname, None
+
+
 class Series:
     """df['value']"""
     def __init__(self, df: DF): self.df = df
@@ -107,7 +112,7 @@ class Interp:
             self.exec_block(fdef.body, env)
             return NONE
         except ReturnEx as r:
-            return r.value
+            return r.value.obj if isinstance(r.value, Uninit) and r.value.obj is not None else r.value
         finally:
             self.fn_stack.pop()
             self.loop_specs, self.loop_counter = saved
@@ -601,6 +606,12 @@ class Interp:
                 return PyNum(o.mag, sign_term=o.phys)
             if name in ("units", "u"): return o.unit
             if name == "dimensionality": return o.unit.dim
+            if name == "dimensionless": return o.unit.dim == DIMLESS
+            if name == "unitless":
+                # pint: no units at all once reduced to root units.  bit/byte count as units although they are dimensionless,
+                # which the Dim abstraction does not track: over-approximate (either answer) for dimensionless quantities
+                if o.unit.dim != DIMLESS: return False
+                return self.eng.decide(self.eng.fresh("unitless", B))
             return BoundMethod(o, name)
         if isinstance(o, DF):
             if name == "index": return Index(o.vec)
@@ -638,11 +649,15 @@ class Interp:
             return BoundMethod(o, name)
         if isinstance(o, TS):
             return BoundMethod(o, name)
+        if isinstance(o, Opaque) and o.what == "source" and name in ("name", "link"): return Label(True, "source " + name)
         if isinstance(o, Opaque) and o.what == "timedelta" and name == "seconds":
             return PyNum((o.payload * 60) % 86400)     # timedelta.seconds: seconds part only (days dropped), ticks are minutes
         if isinstance(o, (Arr, PintAccessor, SDict, SList, list, str, Label, Unit, Opaque, tuple, ILoc)):
             return BoundMethod(o, name)
         if isinstance(o, ClassRef):
+            return BoundMethod(o, name)
+        if isinstance(o, Uninit):
+            if o.obj is not None: return self.getattr(o.obj, name)
             return BoundMethod(o, name)
         if o is NONE:
             raise SymRaise("AttributeError", f"'NoneType' object has no attribute '{name}'")
@@ -663,6 +678,7 @@ class Interp:
         return u.nonempty
 
     def expl_getattr(self, o: Expl, name):
+        if name == "__class__": return ClassRef(KIND_CLASS[o.kind])
         if name == "value":
             return o if o.kind == "empty" else o.value
         if name == "label": return o.label
@@ -1077,6 +1093,11 @@ class Interp:
                 return recv.d.get(k, args[1] if len(args) > 1 else NONE)
         if isinstance(recv, list):
             if name == "append": recv.append(args[0]); return NONE
+        if isinstance(recv, ClassRef) and name == "__new__":
+            return Uninit(recv.name)
+        if isinstance(recv, Uninit) and name == "__init__":
+            recv.obj = self.construct(recv.cname, args, kwargs); return NONE
+        if isinstance(recv, Opaque) and name == "name": return Label(True)
         if isinstance(recv, Builtin):
             return self.call_builtin(f"{recv.name}.{name}", args, kwargs)
         if self.world is not None:
@@ -1160,6 +1181,12 @@ class Interp:
         if name == "sum":
             if v.total is None: raise Unsupported("sum of a series without structural total")
             return Qty(v.total, unit)
+        if name in ("max", "min") and getattr(self, "concrete_ticks", None) is not None:
+            xs = [z3.simplify(v.val(z3.IntVal(t))) for t in self.concrete_ticks if z3.is_true(z3.simplify(v.inidx(z3.IntVal(t))))]
+            if not xs: raise SymRaise("ValueError", "max of empty series")
+            from fractions import Fraction
+            fr = [Fraction(x.numerator_as_long(), x.denominator_as_long()) for x in xs]
+            return Qty(z3.RealVal(str(max(fr) if name == "max" else min(fr))), unit)
         if name in ("max", "min"):
             m = eng.fresh(f"series_{name}")
             w = eng.fresh(f"series_{name}_at", I)
@@ -1338,6 +1365,10 @@ class Interp:
         elif isinstance(nd, PyNum) and z3.is_int_value(nd.z): k = nd.z.as_long()
         else: raise Unsupported("round digits")
         scale = z3.RealVal(10 ** k)
+        xs = z3.simplify(x)
+        if z3.is_rational_value(xs):
+            from fractions import Fraction
+            return z3.RealVal(str(round(Fraction(xs.numerator_as_long(), xs.denominator_as_long()), k)))
         rnd = z3.Function(f"RND{k}", R, R); rndi = z3.Function(f"RNDI{k}", R, I)
         r = rnd(x)
         self.eng.assume(z3.And(r * scale == z3.ToReal(rndi(x)), r - x <= 1 / (2 * scale), x - r <= 1 / (2 * scale)))
